@@ -644,10 +644,57 @@ pub fn gen_edit(rng: &mut Rng, tree: &Tree, docs: &mut Docs) -> Option<Edit> {
     }
 }
 
+/// "Wrap-around" case: one process handles K = 2^k + 1 documents in an order the case controls
+/// (a file list). The first document carries an attribute (`@typstyle off`), the last one has the
+/// same tree shape without it and is the only one that is not formatted; everything in between
+/// is formatted and of another shape. Anything that recycles per-document state modulo a power
+/// of two gives the last document the first one's attributes.
+fn gen_wraparound_case(seed: u64, profile: &str, params: &GenParams) -> Case {
+    let mut rng = Rng::stream(seed, "wraparound");
+    let k = *rng.pick(&[65usize, 129, 257, 257]);
+    let mut tree = Tree::new();
+    tree.insert("w".into(), Node::Dir);
+    let mut paths = Vec::new();
+    for i in 0..k {
+        let key = format!("w/f{:03}.typ", i);
+        let text = if i == 0 {
+            "// @typstyle off\n#let   zqwrapx1  =  (1,2 ,3)\n".to_string()
+        } else if i == k - 1 {
+            "// typstyle note\n#let   zqwrapx2  =  (1,2 ,3)\n".to_string()
+        } else {
+            format!("= Heading zqwrapx{}\n", i + 10)
+        };
+        tree.insert(key.clone(), Node::File(text.into()));
+        paths.push(key);
+    }
+    let mode = match params.focus {
+        Focus::C14 => Mode::Check,
+        Focus::C15 => Mode::Inplace,
+        Focus::C16 => *rng.pick(&[Mode::Stdout, Mode::Inplace]),
+        Focus::Mixed => *rng.pick(&[Mode::Check, Mode::Inplace, Mode::Stdout]),
+    };
+    let inv = Inv {
+        shape: Shape::Files { mode, paths },
+        style: StyleArgs::default(),
+        verbosity: 1,
+        check_after: false,
+        cwd: ".".into(),
+        stdin: None,
+        plan: Vec::new(),
+        shim_seed: rng.next_u64() >> 1,
+        readdir: "sorted".into(),
+        env: Vec::new(),
+    };
+    Case { seed, profile: profile.to_string(), tree, steps: vec![Step::Inv(inv)] }
+}
+
 /// a whole case without fault plans (plans are added per invocation by `plan::add_plan`, which
 /// needs the model's view of the invocation)
 pub fn gen_case(seed: u64, profile: &str, params: &GenParams, oracle: &mut Oracle) -> Case {
     let mut rng = Rng::stream(seed, "workload");
+    if Rng::stream(seed, "case-kind").chance(0.003) {
+        return gen_wraparound_case(seed, profile, params);
+    }
     let main_style = gen_cfg(&mut Rng::stream(seed, "main-style"));
     let mut docs = Docs {
         rng: Rng::stream(seed, "world"),
